@@ -317,6 +317,10 @@ func genWorld(r *simkit.RNG, sc *Scenario, k *gknobs) {
 			if r.Chance(1, 4) {
 				rv.DepReason = "deprecated " + v
 				rv.DepLink = "https://example.com/dep/" + v
+				if r.Chance(1, 3) {
+					// the link is the registry's text, whatever it looks like
+					rv.DepLink = simkit.Pick(r, []string{"HTTPS://Example.COM/Dep/" + v, "https://docs.example.com/m\u00f3dulos/aviso de baja#secci\u00f3n 2", "see the changelog", "", "https://example.com/a%2Fb?x=1&y=%20"})
+				}
 			}
 			rp.Versions = append(rp.Versions, rv)
 		}
